@@ -15,6 +15,17 @@ where
         r.name == name,
         r.attributes.is_none(),
 //@ end
+//@ extract fn src/node.rs from_name_and_attributes props=C01,C20 ty=Node
+//@ rewrite
+-> Arc<Node<T, A>>
+//@ with
+-> (r: Arc<Node<T, A>>)
+//@ spec
+    ensures
+        // [C01.node.from_name_and_attributes]
+        r.name == name,
+        r.attributes == Some(attributes),
+//@ end
 }
 
 impl<T, A> Edge<T, A>
